@@ -36,3 +36,70 @@ Proof. intros e c a b. rewrite exec_app. apply exec_history. Qed.
 Theorem answers_are_never_retracted : forall e c a b t,
   (rets t (c_trace (exec e c a)) <= rets t (c_trace (exec e c (a ++ b))))%nat.
 Proof. intros e c a b t. rewrite exec_app. apply exec_rets_mono. Qed.
+
+(** ** granularity: one step of thread [u] records at most one label -- one atomic access or one call of the
+    wrapped iterator -- and that label carries [u] *)
+Definition lbl_tid (l : label) : tid :=
+  match l with LCall t | LAtom t _ _ _ _ _ | LSrc t _ | LSrcPanic t => t end.
+
+Lemma step_one_label e c u :
+  c_labels (step e c u) = c_labels c \/
+  exists l, c_labels (step e c u) = l :: c_labels c /\ lbl_tid l = u.
+Proof.
+  unfold step.
+  repeat first
+    [ solve [left; reflexivity]
+    | solve [right; eexists; split; reflexivity]
+    | progress unfold finish, call
+    | match goal with |- context [match ?x with _ => _ end] => destruct x end ].
+Qed.
+
+(** the label stream of a run is at most as long as the schedule, and every label of a run that starts with
+    an empty stream belongs to a thread of the schedule *)
+Theorem one_access_per_step : forall e s c,
+  (length (c_labels (exec e c s)) <= length (c_labels c) + length s)%nat.
+Proof.
+  intros e s. induction s as [|u s IH]; intros c.
+  - cbn [exec fold_left length]. lia.
+  - rewrite exec_cons. specialize (IH (step e c u)).
+    destruct (step_one_label e c u) as [Heq|(l & Heq & _)]; rewrite Heq in IH; cbn [length] in *; lia.
+Qed.
+
+Theorem labels_belong_to_scheduled_threads : forall e s c,
+  Forall (fun l => In (lbl_tid l) s) (firstn (length (c_labels (exec e c s)) - length (c_labels c))
+                                             (c_labels (exec e c s))).
+Proof.
+  intros e s. induction s as [|u s IH]; intros c.
+  - cbn [exec fold_left]. rewrite Nat.sub_diag. constructor.
+  - rewrite exec_cons. specialize (IH (step e c u)).
+    destruct (exec_history e s (step e c u)) as (_ & ls & _ & Hl).
+    destruct (step_one_label e c u) as [Heq|(l & Heq & Hu)].
+    + rewrite Heq in IH. eapply Forall_impl; [|exact IH]. intros a Ha. right. exact Ha.
+    + rewrite Hl, Heq in *. rewrite app_length in *. cbn [length] in *.
+      replace (length ls + S (length (c_labels c)) - length (c_labels c))%nat with (length (ls ++ [l])) by (rewrite app_length; cbn; lia).
+      replace (length ls + S (length (c_labels c)) - S (length (c_labels c)))%nat with (length ls) in IH by lia.
+      replace (ls ++ l :: c_labels c) with ((ls ++ [l]) ++ c_labels c) by (rewrite <- app_assoc; reflexivity).
+      rewrite firstn_app, Nat.sub_diag, firstn_all, firstn_O, app_nil_r.
+      rewrite firstn_app, Nat.sub_diag, firstn_all, firstn_O, app_nil_r in IH.
+      apply Forall_app. split.
+      * eapply Forall_impl; [|exact IH]. intros a Ha. right. exact Ha.
+      * constructor; [left; symmetry; exact Hu|constructor].
+Qed.
+
+(** from the initial configuration: the whole label stream *)
+Corollary run_labels_belong_to_scheduled_threads : forall e progs sched,
+  Forall (fun l => In (lbl_tid l) sched) (c_labels (exec e (init progs) sched)) /\
+  (length (c_labels (exec e (init progs) sched)) <= length sched)%nat.
+Proof.
+  intros e progs sched. split.
+  - pose proof (labels_belong_to_scheduled_threads e sched (init progs)) as H.
+    cbn [init c_labels length] in H. rewrite Nat.sub_0_r, firstn_all in H. exact H.
+  - pose proof (one_access_per_step e sched (init progs)) as H. cbn [init c_labels length] in H. lia.
+Qed.
+
+(** the premise-free statements are not vacuous: a run that records one label per step *)
+Example history_example :
+  let e := {| e_kind := KSlice; e_adaptor := ANone; e_len := 3; e_start := 0; e_end := 0; e_hint := HExact;
+              e_owning := false; e_mode := Checked; e_crash := None; e_gap := fun _ => false |} in
+  length (c_labels (exec e (init (fun _ => [Next NIdVal])) [0; 1; 0; 1]%nat)) = 4%nat.
+Proof. vm_compute. reflexivity. Qed.
